@@ -840,6 +840,8 @@ mutual
         addImport "fmt"; addImport "reflect"
         addImport "encoding/json"
         if cfg.extraImports then addImport "gopkg.in/yaml.v3" "yaml"
+      -- `Package.AddDecl` drops a declaration that is DeepEqual to an earlier one (a repeated enum member)
+      let consts := consts.eraseDups
       -- duplicate constant names do not compile
       if (consts.map (·.1)).eraseDups.length ≠ consts.length then issue "duplicate-enum-constant"
       modify fun st => { st with
